@@ -34,8 +34,10 @@ def gen(g, count):
     for n in range(count):
         layout = r.choice(LAYOUTS) if n % 2 else '2006/01/02'
         log = g.log(book=[], exact=True, unusual=0.3, notes=0.5, repeat=0.4)
+        hard = False
         if n % 3 == 0:
             log = [(d, ents, ns + [hard_note(g) for _ in range(r.randint(0, 2))]) for d, ents, ns in log]
+            hard = True
         src = g.render_log(log, layout=layout, varied=True)
         gflags = {'dateFormat': layout} if layout != '2006/01/02' or r.random() < 0.2 else {}
         sflags = {}
@@ -46,7 +48,7 @@ def gen(g, count):
             sflags['end'] = fmt_date_layout(r.choice(days), layout)
         gflags['today'] = fmt_date_layout(__import__('datetime').date(2021, 1, 28), layout)
         c = app(['print'], {b'log.yaml': src, b'food.yaml': b''}, g=gflags, s=sflags, kind='print')
-        c.meta.update({'log': log, 'layout': layout, 'stage': 1})
+        c.meta.update({'log': log, 'layout': layout, 'stage': 1, 'hard': hard})
         cases.append(c)
     return cases
 
@@ -101,6 +103,39 @@ def judge(ctx, stage1, impl1, stage2, impl2):
                             {'csv_of_printed': repr(got)[:1200], 'expected': repr(want)[:1200]}, signature='print-readback')
 
 
+def expected_nodes(c):
+    """what the printed log must read back to: one record per selected day"""
+    out = []
+    for d, ents, ns in selected(c):
+        els = []
+        for f, q in spec.merge_day(ents):
+            v = Fraction(float(Fraction(spec.fmt_fixed(q, 2))))      # read back as the nearest float64
+            els.append((f, '%d/%d' % (v.numerator, v.denominator)))
+        out.append((fmt_date_layout(d, c.meta['layout']).encode(), els, [(a, b_) for a, b_ in ns]))
+    return out
+
+
+def judge_readback(ctx, stage1, impl1):
+    """parse the printed text with the program's own parser and compare days, foods and notes"""
+    from .C04 import ParseCase, nodes_of
+    pcs = []
+    for c in stage1:
+        i = impl1[c.id]
+        if i.get('status') == 'ok' and not c.meta.get('hard'):
+            pc = ParseCase(unhx(i['out']), None, {'parent': c})
+            pc.id = ctx.fresh('rb')
+            pcs.append(pc)
+    res = ctx.go([p.go() for p in pcs])
+    ctx.evaluations += len(pcs)
+    for pc in pcs:
+        c = pc.meta['parent']
+        got = nodes_of(res[pc.id])
+        want = expected_nodes(c)
+        if got != want:
+            ctx.problem('oracle', 'the printed log does not read back to the same days, foods and notes', c,
+                        {'printed': pc.src.decode('utf-8', 'replace')[:1000], 'reads_back_to': repr(got)[:1200], 'expected': repr(want)[:1200]}, signature='print-readback-days-notes')
+
+
 def stage2_of(stage1, impl1):
     out = []
     for c in stage1:
@@ -124,6 +159,7 @@ def run(ctx):
     stage2 = stage2_of(stage1, impl1)
     impl2, model2 = run_apps(ctx, stage2)
     judge(ctx, stage1, impl1, stage2, impl2)
+    judge_readback(ctx, stage1, impl1)
     for c in stage1:
         ctx.count('layout:' + c.meta['layout'])
         if c.meta['layout'] != '2006/01/02' or any(ns for _, _, ns in c.meta['log']):
@@ -143,3 +179,4 @@ def search(ctx, seed):
     impl2 = ctx.go([c.go() for c in stage2])
     ctx.evaluations += len(stage1) + len(stage2)
     judge(ctx, stage1, impl1, stage2, impl2)
+    judge_readback(ctx, stage1, impl1)
